@@ -1,5 +1,6 @@
 """C03 — calls never modify their arguments; objects never share state."""
 import random
+import numpy as np
 from gen import *
 from oracles import FrameOracle, deep_snap, snap_diff
 from propbase import StreamProperty
@@ -85,6 +86,30 @@ class _Args:
 ARGS = _Args()
 
 
+def _mutable_members(x, depth=0):
+    """every list / dict / array reachable INSIDE a container (not the container itself)"""
+    out = []
+    if depth > 4:
+        return out
+    it = x.values() if isinstance(x, dict) else (x if isinstance(x, (list, tuple)) else [])
+    for v in it:
+        if isinstance(v, (list, dict, np.ndarray)):
+            out.append(v)
+        out += _mutable_members(v, depth + 1)
+    return out
+
+
+def _nested_shared(arg, params):
+    """a mutable member of the caller's argument (an inner [lo, hi] list of a region list, say) is reachable from the recorded
+    parameters: editing one then rewrites the other"""
+    mine = _mutable_members(arg)
+    theirs = []
+    for p_ in params:
+        theirs += [p_] if isinstance(p_, (list, dict, np.ndarray)) else []
+        theirs += _mutable_members(p_)
+    return any(a is b for a in mine for b in theirs)
+
+
 def _registry(rng):
     """(name, callable(data) -> result) for every public function taking a data object"""
     import numpy as np, dnplab as dnp, warnings
@@ -118,6 +143,10 @@ def _registry(rng):
         reg("smooth-bad", lambda d, dim: dnp.smooth(d, dim, 4, 7)),
         reg("interp", lambda d, dim: dnp.interp(d, dim, ARGS.keep(np.linspace(0.0, 1.0, 7)))),
         reg("interp-list", lambda d, dim: dnp.interp(d, dim, ARGS.keep([0.0, 0.25, 0.5, 1.0]))),
+        reg("remove_background-nested-regions", lambda d, dim: dnp.remove_background(d, dim, 1, ARGS.keep([[0.0, 0.6], [1.4, 2.0]]))),
+        reg("background-nested-regions", lambda d, dim: dnp.background(d, dim, 1, ARGS.keep([[0.0, 0.6], [1.4, 2.0]]))),
+        reg("integrate-nested-regions", lambda d, dim: dnp.integrate(d, dim, ARGS.keep([[0.0, 1.0], [0.5, 9.0]]))),
+        reg("signal_to_noise-nested-regions", lambda d, dim: dnp.signal_to_noise(d, (0.0, 1.0), ARGS.keep([[1.25, 1.6], [1.6, 2.0]]), dim=dim)),
         reg("integrate-regions-kept", lambda d, dim: dnp.integrate(d, dim, ARGS.keep([(0.0, 1.0), (0.5, 9.0)]))),
         reg("phase_cycle-array", lambda d, dim: dnp.phase_cycle(d, dim, ARGS.keep(np.array([0, 1])))),
         reg("phase-array-p1", lambda d, dim: dnp.phase(d, dim, 10.0, ARGS.keep(np.linspace(0.0, 5.0, d.shape[d.dims.index(dim)])))),
@@ -245,7 +274,7 @@ def registry_oracle(tier, seed):
                                 key = "C03:shared-state:%s:argument-array" % name
                                 fails.append({"key": key, "clause": key, "ops": [{"function": name, "shape": shape, "dim_pos": k}]})
                             if (isinstance(x, np.ndarray) and any(np.shares_memory(x, h) for h in hist if h.size)) or \
-                                    (isinstance(x, (list, dict)) and any(v is x for v in params)):
+                                    (isinstance(x, (list, dict)) and (any(v is x for v in params) or _nested_shared(x, params))):
                                 key = "C03:shared-state:%s:argument-in-history" % name
                                 fails.append({"key": key, "clause": key, "ops": [{"function": name, "shape": shape, "dim_pos": k}]})
                     if isinstance(res, dnp.DNPData) and history_aliases_live(res):
